@@ -33,7 +33,7 @@ fn on_timeout(prop: &str, label: &str, replay_json: &str) {
     let case: serde_json::Value = serde_json::from_str(replay_json).unwrap_or(serde_json::Value::Null);
     let rf = serde_json::json!({
         "property": prop, "seed": 0, "tier": "hang", "clause": "HANG.wall",
-        "message": format!("a call did not return within the wall-clock limit ({label})"),
+        "message": format!("a call consumed the CPU-time limit without returning ({label})"),
         "step": -1, "log_hash": 0, "minimised": false, "original_steps": 0, "case": case,
     });
     let _ = std::fs::write(&p, serde_json::to_string_pretty(&rf).unwrap());
@@ -41,7 +41,7 @@ fn on_timeout(prop: &str, label: &str, replay_json: &str) {
         println!("REPRODUCED clause=HANG.wall (call did not return)");
         std::process::exit(1);
     }
-    println!("violation detail: clause=HANG.wall {label}: a call into the crate did not return within the wall-clock limit");
+    println!("violation detail: clause=HANG.wall {label}: a call into the crate consumed the CPU-time limit without returning");
     println!("VIOLATION property={prop} replay={}", p.display());
     std::process::exit(1);
 }
